@@ -5,6 +5,7 @@ import (
 	"encoding/hex"
 	"fmt"
 	"math/big"
+	"os"
 	"strings"
 
 	abci "github.com/cometbft/cometbft/abci/types"
@@ -170,7 +171,10 @@ func (w *world) checkOp(ob *vh.ObservedBlock, i int, o *op, res *abci.ExecTxResu
 		if len(lg) > 90 {
 			lg = lg[:90]
 		}
-		run.Distinct("unexecuted_reason", fmt.Sprintf("%s|%s|%s", o.Sender.Kind, cls, lg))
+		run.Distinct("unexecuted_reason", fmt.Sprintf("%s|%s|%s", o.Sender.Kind, cls, stripDigits(lg)))
+		if os.Getenv("C10_DEBUG") != "" {
+			fmt.Fprintln(os.Stderr, "UNEXECUTED", w.label, ob.Height, o.String(), res.Log)
+		}
 		exp = pre.clone()
 		for _, h := range w.holders {
 			for d := range denoms {
@@ -636,4 +640,13 @@ func (w *world) authority(c *call, caller common.Address, storeBefore *big.Int, 
 		}
 		w.approved[c.Tok][k] = a
 	}
+}
+
+func stripDigits(s string) string {
+	return strings.Map(func(r rune) rune {
+		if r >= '0' && r <= '9' {
+			return -1
+		}
+		return r
+	}, s)
 }
